@@ -28,7 +28,8 @@ _STR = re.compile(r'"((?:[^"]|"")*)"', re.S)
 
 def _coqc(path, timeout):
     try:
-        p = subprocess.run(["coqc"] + COQFLAGS + [path], capture_output=True, text=True, timeout=timeout)
+        cmd = "ulimit -s unlimited 2>/dev/null || ulimit -s 1000000 2>/dev/null; exec coqc " + " ".join(COQFLAGS + [path])
+        p = subprocess.run(["bash", "-c", cmd], capture_output=True, text=True, timeout=timeout)
     except subprocess.TimeoutExpired:
         raise CoqError(f"coqc timeout on {path}")
     if p.returncode != 0:
